@@ -79,3 +79,287 @@ def encode_export(cases, header=False, **kw):
     for case in cases:
         out.append(encode_export_sentence(case, **kw))
     return "".join(out)
+
+
+# --------------------------------------------------------------------------- export decoder
+
+class DecodeError(Exception):
+    pass
+
+
+def decode_export(text, v4):
+    """Decode export text as written by a writer: returns list of cases; checks the format invariants that the
+    property names (tokens first in order, constituents numbered from 500 uniquely and consecutively, parents resolve,
+    children numbered below their parent, #BOS/#EOS carry the same id)."""
+    cases = []
+    lines = text.split("\n")
+    if lines and lines[-1] == "":
+        lines.pop()
+    i = 0
+    width = 6 if v4 else 5
+    while i < len(lines):
+        line = lines[i]
+        if not line.startswith("#BOS "):
+            raise DecodeError("expected #BOS, got %r" % line)
+        try:
+            sid = int(line.split()[1])
+        except (IndexError, ValueError):
+            raise DecodeError("bad #BOS line %r" % line)
+        i += 1
+        rows = []
+        while i < len(lines) and not lines[i].startswith("#EOS"):
+            fields = lines[i].split()
+            if len(fields) != width:
+                raise DecodeError("line %r has %d fields, expected %d" % (lines[i], len(fields), width))
+            if "\t" not in lines[i]:
+                raise DecodeError("line %r is not tab separated" % lines[i])
+            rows.append(fields)
+            i += 1
+        if i >= len(lines):
+            raise DecodeError("missing #EOS")
+        eos = lines[i].split()
+        if len(eos) != 2 or eos[1] != str(sid):
+            raise DecodeError("#EOS %r does not match #BOS %d" % (lines[i], sid))
+        i += 1
+        tokens, cons = [], {}
+        seen_con = False
+        for fields in rows:
+            word = fields[0]
+            rest = fields[1:]
+            lemma = rest.pop(0) if v4 else None
+            label, morph, edge, parent = rest
+            try:
+                parent = int(parent)
+            except ValueError:
+                raise DecodeError("parent %r not a number" % parent)
+            if len(word) == 4 and word[0] == "#" and word[1:].isdigit():
+                seen_con = True
+                num = int(word[1:])
+                if num in cons:
+                    raise DecodeError("constituent number %d used twice" % num)
+                cons[num] = {"l": label, "e": edge, "m": morph, "lem": lemma, "c": [], "_parent": parent, "_num": num}
+            else:
+                if seen_con:
+                    raise DecodeError("token %r after a constituent line" % word)
+                tokens.append({"w": word, "p": label, "n": len(tokens) + 1, "e": edge, "m": morph, "lem": lemma, "_parent": parent})
+        if sorted(cons) != list(range(500, 500 + len(cons))):
+            raise DecodeError("constituent numbers %r are not consecutive from 500" % sorted(cons))
+        if list(cons) != sorted(cons):
+            raise DecodeError("constituent lines not in ascending order: %r" % list(cons))
+        root = {"l": "VROOT", "e": "--", "c": []}
+        for node in tokens + [cons[k] for k in sorted(cons)]:
+            par = node["_parent"]
+            if par == 0:
+                root["c"].append(node)
+            elif par in cons:
+                if "_num" in node and node["_num"] >= par:
+                    raise DecodeError("constituent %d is not numbered below its parent %d" % (node["_num"], par))
+                cons[par]["c"].append(node)
+            else:
+                raise DecodeError("parent reference %d does not resolve" % par)
+        for node in cons.values():
+            if not node["c"]:
+                raise DecodeError("constituent %d has no children" % node["_num"])
+        for node in tokens + list(cons.values()):
+            node.pop("_parent", None)
+            node.pop("_num", None)
+        if not root["c"]:
+            raise DecodeError("empty sentence")
+        cases.append({"sid": sid, "root": root})
+    return cases
+
+
+# --------------------------------------------------------------------------- bracket formats
+
+def encode_brackets_tree(node, ws, emptypos=False, root_label=True, is_root=True, disco=False):
+    """ws(kind) -> whitespace string; kind 'opt' may be empty, 'req' must not be."""
+    if M.is_tok(node):
+        word = str(node["n"]) if disco else node["w"]
+        if emptypos:
+            return "(" + ws("opt") + word + ws("opt") + ")"
+        return "(" + ws("opt") + node["p"] + ws("req") + word + ws("opt") + ")"
+    out = "("
+    if not (is_root and not root_label):
+        out += ws("opt") + node["l"]
+    for child in M.kids(node):
+        out += ws("opt") + encode_brackets_tree(child, ws, emptypos, root_label, False, disco)
+    return out + ws("opt") + ")"
+
+
+def decode_brackets(text, disco=False):
+    """Decode bracket writer output: one tree per line -> list of roots (model nodes; words are indices for disco).
+    For disco returns (root, sentence tokens)."""
+    out = []
+    lines = text.split("\n")
+    if lines and lines[-1] == "":
+        lines.pop()
+    for line in lines:
+        sentence = None
+        if disco:
+            if "\t" not in line:
+                raise DecodeError("no tab between tree and sentence in %r" % line)
+            line, _, tail = line.partition("\t")
+            sentence = tail.split(" ")
+        pos = [0]
+
+        def parse():
+            if pos[0] >= len(line) or line[pos[0]] != "(":
+                raise DecodeError("expected ( at %d in %r" % (pos[0], line))
+            pos[0] += 1
+            start = pos[0]
+            while pos[0] < len(line) and line[pos[0]] not in "() ":
+                pos[0] += 1
+            label = line[start:pos[0]]
+            if pos[0] >= len(line):
+                raise DecodeError("unterminated group in %r" % line)
+            if line[pos[0]] == " ":
+                pos[0] += 1
+                start = pos[0]
+                while pos[0] < len(line) and line[pos[0]] not in "() ":
+                    pos[0] += 1
+                word = line[start:pos[0]]
+                if pos[0] >= len(line) or line[pos[0]] != ")" or word == "":
+                    raise DecodeError("bad token group near %d in %r" % (pos[0], line))
+                pos[0] += 1
+                return {"w": word, "p": label}
+            children = []
+            while pos[0] < len(line) and line[pos[0]] == "(":
+                children.append(parse())
+            if pos[0] >= len(line) or line[pos[0]] != ")":
+                raise DecodeError("expected ) at %d in %r" % (pos[0], line))
+            pos[0] += 1
+            if not children:
+                raise DecodeError("constituent %r without children in %r" % (label, line))
+            return {"l": label, "c": children}
+        root = parse()
+        if pos[0] != len(line):
+            raise DecodeError("trailing material %r" % line[pos[0]:])
+        # number the tokens
+        if disco:
+            for tok in iter_tokens(root):
+                if not tok["w"].isdigit():
+                    raise DecodeError("token %r is not an index" % tok["w"])
+                tok["n"] = int(tok["w"])
+            numbers = sorted(t["n"] for t in iter_tokens(root))
+            if numbers != list(range(1, len(numbers) + 1)):
+                raise DecodeError("indices %r are not 1..n" % numbers)
+            if len(sentence) != len(numbers):
+                raise DecodeError("%d indices but %d sentence tokens %r" % (len(numbers), len(sentence), sentence))
+            for tok in iter_tokens(root):
+                tok["w"] = sentence[tok["n"] - 1]
+        else:
+            for i, tok in enumerate(iter_tokens(root), 1):
+                tok["n"] = i
+        out.append(root)
+    return out
+
+
+def iter_tokens(node):
+    """tokens in textual (depth-first, stored) order"""
+    if "c" not in node:
+        yield node
+    else:
+        for child in node["c"]:
+            for tok in iter_tokens(child):
+                yield tok
+
+
+def encode_discobrackets(cases, ws=None, root_label=True):
+    """The documented layout: one tree per line, a tab, the tokens separated by single blanks."""
+    ws = ws or (lambda kind: " " if kind == "req" else "")
+    out = []
+    for case in cases:
+        tree = encode_brackets_tree(case["root"], ws, False, root_label, True, True)
+        out.append(tree + "\t" + " ".join(t["w"] for t in M.toks(case["root"])) + "\n")
+    return "".join(out)
+
+
+# --------------------------------------------------------------------------- TIGER-XML
+
+def xml_attr(value):
+    return '"' + value.replace("&", "&amp;").replace("<", "&lt;").replace(">", "&gt;").replace('"', "&quot;") + '"'
+
+
+def encode_tigerxml(cases, encoding="utf-8", sid_format="%d", perm=None, secedges=False, vroot=True):
+    """perm(list) -> permuted list (attribute order, nt order, edge order)."""
+    perm = perm or (lambda x: x)
+    out = ['<?xml version="1.0" encoding="%s" standalone="yes"?>\n<corpus id="c">\n<head><meta><name>x</name></meta></head>\n<body>\n' % encoding]
+    for case in cases:
+        root = case["root"]
+        number = number_constituents(root)
+        out.append('<s id=%s>\n<graph root="s_%d">\n  <terminals>\n' % (xml_attr(sid_format % case["sid"]), number[id(root)]))
+        for tok in M.toks(root):
+            attrs = [("id", "t%d" % tok["n"]), ("word", tok["w"]), ("lemma", tok.get("lem") or "--"), ("pos", tok["p"]), ("morph", tok.get("m") or "--")]
+            attrs = [attrs[0]] + list(perm(attrs[1:]))
+            inner = ""
+            if secedges and tok["n"] == 1:
+                inner = '<secedge label="SE" idref="t1" />'
+            out.append("    <t %s %s>\n" % (" ".join("%s=%s" % (k, xml_attr(v)) for k, v in attrs), "/" if not inner else "") if not inner
+                       else "    <t %s>%s</t>\n" % (" ".join("%s=%s" % (k, xml_attr(v)) for k, v in attrs), inner))
+        out.append("  </terminals>\n  <nonterminals>\n")
+        cons = [n for n in M.preorder(root) if not M.is_tok(n)]
+        if not vroot:
+            cons = [n for n in cons if n is not root]
+        for node in perm(cons):
+            out.append("    <nt id=%s cat=%s>\n" % (xml_attr("n%d" % number[id(node)]), xml_attr(node["l"])))
+            for child in perm(list(M.kids(node))):
+                ref = "t%d" % child["n"] if M.is_tok(child) else "n%d" % number[id(child)]
+                out.append("      <edge label=%s idref=%s />\n" % (xml_attr(child.get("e") or "--"), xml_attr(ref)))
+            out.append("    </nt>\n")
+        out.append("  </nonterminals>\n</graph>\n</s>\n")
+    out.append("</body>\n</corpus>\n")
+    return "".join(out)
+
+
+def decode_tigerxml(data):
+    """data: bytes of a TIGER-XML document as the writer produces it -> list of cases."""
+    import xml.etree.ElementTree as ET
+    try:
+        doc = ET.fromstring(data)
+    except ET.ParseError as exc:
+        raise DecodeError("not well-formed XML: %s" % exc)
+    body = doc.find("body")
+    if doc.tag != "corpus" or body is None:
+        raise DecodeError("no <corpus><body>")
+    cases = []
+    for sent in body.findall("s"):
+        graph = sent.find("graph")
+        if graph is None:
+            raise DecodeError("<s> without <graph>")
+        nodes = {}
+        order = []
+        for tok in graph.find("terminals").findall("t"):
+            if tok.get("id") in nodes:
+                raise DecodeError("id %r used twice" % tok.get("id"))
+            nodes[tok.get("id")] = {"w": tok.get("word"), "p": tok.get("pos"), "lem": tok.get("lemma"), "m": tok.get("morph"), "n": len(order) + 1, "e": None}
+            order.append(tok.get("id"))
+        links = []
+        for nt in graph.find("nonterminals").findall("nt"):
+            if nt.get("id") in nodes:
+                raise DecodeError("id %r used twice" % nt.get("id"))
+            nodes[nt.get("id")] = {"l": nt.get("cat"), "e": None, "c": []}
+            for edge in nt.findall("edge"):
+                links.append((nt.get("id"), edge.get("idref"), edge.get("label")))
+        has_parent = set()
+        for par, child, label in links:
+            if child not in nodes:
+                raise DecodeError("idref %r does not resolve" % child)
+            if child in has_parent:
+                raise DecodeError("node %r has two parents" % child)
+            has_parent.add(child)
+            nodes[child]["e"] = label
+            nodes[par]["c"].append(nodes[child])
+        roots = [k for k in nodes if k not in has_parent]
+        if len(roots) != 1:
+            raise DecodeError("%d roots" % len(roots))
+        if graph.get("root") != roots[0]:
+            raise DecodeError("graph root attribute %r, parentless node %r" % (graph.get("root"), roots[0]))
+        for key, node in nodes.items():
+            if "c" in node and not node["c"]:
+                raise DecodeError("nonterminal %r without edges" % key)
+        try:
+            sid = int(sent.get("id"))
+        except (TypeError, ValueError):
+            raise DecodeError("sentence id %r" % sent.get("id"))
+        cases.append({"sid": sid, "root": nodes[roots[0]], "_ids": {k: v for k, v in nodes.items()}})
+    return cases
